@@ -5,13 +5,16 @@ misses it and --thorough is given) and writes mutants/RESULTS.md + updates seede
 With --cross also runs all other properties' quick checks (which other checks notice it)."""
 import sys, os, subprocess, json, glob, time, re
 ROOT='/verif'
+# a second sandbox (copy of /verif whose harness points at a scratch worktree of /repo) can take a share of the work:
+# SWEEP_RUN=<copy of /verif> SWEEP_REPO=<worktree> SWEEP_OUT=<results file>; patches and meta.json stay in /verif
+RUN=os.environ.get('SWEEP_RUN',ROOT); REPO=os.environ.get('SWEEP_REPO','/repo')
 def sh(cmd, **kw):
     return subprocess.run(cmd, capture_output=True, text=True, **kw)
 def clean():
-    return sh(['git','-C','/repo','status','--porcelain']).stdout.strip()==''
+    return sh(['git','-C',REPO,'status','--porcelain']).stdout.strip()==''
 def run(pid, tier, seed='1'):
     t0=time.time()
-    p=sh([ROOT+'/check','run',pid,tier], cwd=ROOT, env=dict(os.environ, VERIF_SEED=seed))
+    p=sh([RUN+'/check','run',pid,tier], cwd=RUN, env=dict(os.environ, VERIF_SEED=seed))
     viol=[l for l in p.stdout.splitlines() if l.startswith('VIOLATION')]
     tests=sorted(set(re.findall(r'replay=\S*/C\d+-([A-Za-z0-9_]+)-', '\n'.join(viol))))
     return p.returncode, tests, time.time()-t0
@@ -32,7 +35,7 @@ rows=[]
 assert clean(), 'repo dirty'
 for kind,pid,name,patch in items:
     if only and pid not in only and name not in only: continue
-    a=sh(['git','-C','/repo','apply',patch])
+    a=sh(['git','-C',REPO,'apply',patch])
     if a.returncode!=0:
         rows.append((kind,pid,name,'PATCH DOES NOT APPLY','', '')); print(rows[-1]); continue
     try:
@@ -52,7 +55,7 @@ for kind,pid,name,patch in items:
                 r2,_,_=run(q,'quick')
                 if r2==1: others.append(q)
     finally:
-        sh(['git','-C','/repo','checkout','--','.'])
+        sh(['git','-C',REPO,'checkout','--','.'])
     assert clean()
     rows.append((kind,pid,name,res,tier+f' {wall:.0f}s',','.join(tests)+(' | also: '+','.join(others) if others else '')))
     print(rows[-1], flush=True)
@@ -60,7 +63,7 @@ for kind,pid,name,patch in items:
         mp=os.path.join(os.path.dirname(patch),'meta.json'); m=json.load(open(mp))
         m['detected_by']={'check':pid,'tier':tier,'result':res,'failing_tests':tests,'seconds':round(wall,1),'also_detected_by_quick_checks_of':others,'ran':f'git -C /repo apply patch.diff; ./check run {pid} {tier}; git -C /repo checkout -- .'}
         json.dump(m,open(mp,'w'),indent=1)
-out=ROOT+'/mutants/RESULTS.md'
+out=os.environ.get('SWEEP_OUT',ROOT+'/mutants/RESULTS.md')
 old={}
 if os.path.exists(out):
     for l in open(out):
